@@ -101,14 +101,25 @@ def describe(case: dict) -> dict:
 
 # ------------------------------------------------------------------------------------------ execution
 
-def build(env: Env, case: dict, nstages: int | None = None) -> Any:
+def build(env: Env, case: dict, nstages: int | None = None, skip: int | None = None, only: int | None = None) -> Any:
+    """skip (localisation only): leave out stage number `skip` (0 = the head, which must be an `op` entry);
+    only (localisation only): stage number `only` alone, applied to the bare first source"""
     e = ENTRIES[case["entry"]]
-    o = e.make(env, case["P"])
-    if e.kind == "op":
-        o = env.src(0).pipe(o)
+    if only is not None and only > 0:
+        sn, sp = case["stages"][only - 1]
+        return env.src(0).pipe(ENTRIES[sn].make(env, sp))
+    if only == 0:
+        nstages = 0
+    if skip == 0:
+        o = env.src(0)
+    else:
+        o = e.make(env, case["P"])
+        if e.kind == "op":
+            o = env.src(0).pipe(o)
     stages = case["stages"] if nstages is None else case["stages"][:nstages]
-    for sn, sp in stages:
-        o = o.pipe(ENTRIES[sn].make(env, sp))
+    for j, (sn, sp) in enumerate(stages):
+        if skip != j + 1:
+            o = o.pipe(ENTRIES[sn].make(env, sp))
     return o
 
 
@@ -121,13 +132,13 @@ class Run:
         self.env: Any = None
 
 
-def execute(case: dict, nstages: int | None = None) -> Run:
+def execute(case: dict, nstages: int | None = None, skip: int | None = None, only: int | None = None) -> Run:
     run = Run()
     lab = new_lab()
     env = Env(lab, case["tls"])
     run.lab, run.env = lab, env
     mode = case["mode"]
-    obs = build(env, case, nstages)   # built ONCE, before any subscription
+    obs = build(env, case, nstages, skip, only)   # built ONCE, before any subscription
 
     def do_sub(k: int) -> None:
         o = lab.observer("sub%d" % k)
@@ -202,10 +213,13 @@ def mismatch(case: dict, run: Run) -> tuple | None:
 
 
 def localise(case: dict) -> str:
-    """Stage that introduced the difference: the shortest pipeline prefix that already differs is found by re-running
-    the same schedule on every prefix; inside that prefix a stage whose library function has a triaged finding
-    (LABELS) is preferred, because such a stage pollutes everything downstream of it even when the difference only
-    becomes visible after a later stage changed how much of the shared iterator is consumed."""
+    """Stage that introduced the difference. The same schedule is re-run on every pipeline prefix; `fail` is the
+    shortest prefix that already differs. fail == 0: the head entry on its own. Otherwise the stages of that prefix
+    that are NECESSARY for the difference are determined by leaving each one out (an `op` head is replaced by the bare
+    source; a `create` head passed on its own, so it is not blamed). Among the necessary stages one whose library
+    function has a triaged finding (LABELS) is preferred: such a stage pollutes everything downstream even when the
+    difference only shows after a later stage changed how much of the shared iterator is consumed. The stage whose
+    addition made the prefix fail is reported when it has a triaged finding itself or when no necessary stage has one."""
     names = [case["entry"]] + [sn for sn, _ in case["stages"]]
     n = len(case["stages"])
     fail = n
@@ -213,10 +227,38 @@ def localise(case: dict) -> str:
         if mismatch(case, execute(case, k)) is not None:
             fail = k
             break
-    for nm in names[:fail + 1]:
-        if ENTRIES[nm].group in LABELS:
-            return nm
+    if fail == 0 or ENTRIES[names[fail]].group in LABELS:
+        return names[fail]
+    necessary = []
+    for j in range(0, fail + 1):
+        if j == 0 and ENTRIES[names[0]].kind != "op":
+            continue
+        if mismatch(case, execute(case, fail, skip=j)) is None:
+            necessary.append(j)
+    for j in necessary:
+        if ENTRIES[names[j]].group in LABELS and guilty_alone(case, j):
+            return names[j]
     return names[fail]
+
+
+def guilty_alone(case: dict, j: int) -> bool:
+    """does stage j on its own (head: as generated; later stage: applied to the bare first source) differ between
+    subscriptions under a handful of other schedules?"""
+    tls = case["tls"] if case["tls"] else [[(5, "N", 1), (10, "N", 2), (15, "N", 3), (20, "C", None)]]
+    times = sorted({m[0] for tl in tls for m in tl}) or [0]
+    mid, last = times[len(times) // 2], times[-1]
+    alts = [{"mode": "seq", "nsub": 3, "gaps": [0, 5]}, {"mode": "cut", "nsub": 2, "gaps": [0], "cut": max(1, mid)},
+            {"mode": "cut", "nsub": 2, "gaps": [1], "cut": last + 1}]
+    if not ENTRIES[case["entry"]].since or j > 0:
+        alts += [{"mode": "overlap", "nsub": 3, "offs": [0, 1]}, {"mode": "overlap", "nsub": 3, "offs": [mid, 1]},
+                 {"mode": "overlap", "nsub": 2, "offs": [max(0, last - 1)]}]
+    for alt in alts:
+        c = dict(case)
+        c.update(alt)
+        c["tls"] = tls
+        if mismatch(c, execute(c, only=j)) is not None:
+            return True
+    return False
 
 
 def run_case(seed: int, idx: int, res: UnitResult) -> None:
